@@ -320,6 +320,37 @@ def resetSeedData {G : Type} (reseedGlobal : Int → G) (st : Store G) : Option 
   | none => st
   | some s => { st with glob := reseedGlobal s }
 
+/-! ## `QTomography.reset_seed` / `Experiment.reset_seed_data` -/
+
+/-- what a tomography object (through its Experiment) holds: the seed given at construction or at the last reset, and the world -/
+structure TomoSeed (G : Type) where
+  seedData : Option Int
+  store : Store G
+
+/-- `Experiment.reset_seed_data(seed_data)`: remember it and, unless `None`, re-seed numpy's global state -/
+def expResetSeedData {G : Type} (reseed : Int → G) (t : TomoSeed G) (s : Option Int) : TomoSeed G :=
+  { seedData := s, store := resetSeedData reseed t.store s }
+
+/-- `QTomography.reset_seed(seed=None)`: `if seed is not None:` reset with it, else with the seed the Experiment holds
+(`0` is a seed like any other - fix b42e0b1) -/
+def tomoResetSeed {G : Type} (reseed : Int → G) (t : TomoSeed G) (arg : Option Int) : TomoSeed G :=
+  match arg with
+  | some s => expResetSeedData reseed t (some s)
+  | none => expResetSeedData reseed t t.seedData
+
+/-- a history of `reset_seed(arg)` calls and unseeded data generations (`n` data each); returns the data sets -/
+def runResets {G : Type} (P : PRNG G) (reseed : Int → G) (probs : List Rat) :
+    TomoSeed G → List (Option (Option Int) × Nat) → Option (List (List Int))
+  | _, [] => some []
+  | t, (some arg, _) :: rest => runResets P reseed probs (tomoResetSeed reseed t arg) rest
+  | t, (none, n) :: rest =>
+    match genData P t.store .none probs n with
+    | none => none
+    | some (d, st') =>
+      match runResets P reseed probs { t with store := st' } rest with
+      | none => none
+      | some ds => some (d :: ds)
+
 /-! ## driver: a *tape* PRNG makes the stream plumbing executable — the harness records what the real generator
 produced (uniforms, multinomial count vectors, in order of consumption) and the model consumes the tape through the
 same plumbing -/
@@ -402,6 +433,24 @@ def handle (args : List String) : Option String :=
       match r with
       | .ok d => some s!"ok {showList toString d} drawn={drawn}"
       | .error e => some s!"err {e.toString} drawn={drawn}"
+  | ["rseed", held, seeds, glob, probs, acts] => do
+      -- reset_seed history: held seed (`N` or int), seed tapes `s=tape|…`, initial global tape, probs, actions
+      -- `R<int>` = reset_seed(int), `RN` = reset_seed(), `D<n>` = unseeded generation of n data
+      let held ← if held = "N" then some none else held.toInt?.map some
+      let seeds ← if seeds = "~" then some [] else (seeds.splitOn "|").mapM fun e => match e.splitOn "=" with
+        | [k, t] => do some ((← parseInt? k), (← parseList? parseRat? t))
+        | _ => none
+      let glob ← parseList? parseRat? glob
+      let probs ← parseList? parseRat? probs
+      let acts ← (acts.splitOn ",").mapM fun a =>
+        if a = "RN" then some (some (none : Option Int), 0)
+        else if a.startsWith "R" then (String.ofList (a.toList.drop 1)).toInt?.map fun s => (some (some s), 0)
+        else if a.startsWith "D" then (String.ofList (a.toList.drop 1)).toNat?.map fun n => (none, n)
+        else none
+      let reseed : Int → Tape := fun s => ⟨(seeds.lookup s).getD [], []⟩
+      match runResets tapePRNG reseed probs ⟨held, ⟨⟨glob, []⟩, []⟩⟩ acts with
+      | none => some "no-generator"
+      | some ds => some ("|".intercalate (ds.map (showList toString)))
   | ["data", probs, us] => do
       let probs ← parseList? parseRat? probs
       let us ← parseList? parseRat? us
